@@ -71,20 +71,28 @@ RETCODE adfGetFileBlocks ( struct AdfVolume * const        vol,
  
     n = m = 0;	
     /* in file header block */
-    for(i=0; i<entry->highSeq; i++)
+    for ( i = 0 ; i < entry->highSeq && i < MAX_DATABLK && n < fileBlocks->nbData ; i++ )
         fileBlocks->data[n++] = entry->dataBlocks[MAX_DATABLK-1-i];
 
-    /* in file extension blocks */
+    /* in file extension blocks: the lists are as long as the file size says, no longer */
     nSect = entry->extension;
-    while(nSect!=0) {
+    while ( nSect != 0 && m < fileBlocks->nbExtens ) {
+        RETCODE rc = adfReadFileExtBlock ( vol, nSect, &extBlock );
+        if ( rc != RC_OK ) {
+            free ( fileBlocks->data );
+            free ( fileBlocks->extens );
+            return rc;
+        }
         fileBlocks->extens[m++] = nSect;
-        adfReadFileExtBlock(vol, nSect, &extBlock);
-        for(i=0; i<extBlock.highSeq; i++)
+        for ( i = 0 ; i < extBlock.highSeq && i < MAX_DATABLK && n < fileBlocks->nbData ; i++ )
             fileBlocks->data[n++] = extBlock.dataBlocks[MAX_DATABLK-1-i];
         nSect = extBlock.extension;
     }
     if ( (fileBlocks->nbExtens+fileBlocks->nbData) != (n+m) )
         (*adfEnv.wFct)("adfGetFileBlocks : less blocks than expected");
+    /* only the blocks that were found are reported */
+    fileBlocks->nbData   = n;
+    fileBlocks->nbExtens = m;
 
     return RC_OK;
 }
